@@ -101,9 +101,11 @@ def replay(case):
                                 break
                     if name == 'mals':
                         cap = max(cfg['r0'])
-                        r = sle.mals(A, x0, b, repeats=2, solver=micro, max_rank=cap)
-                        if metadata_problem(r) or max(r.ranks) > cap:
-                            out.append(('%s:maxrank' % tag, 'MALS exceeded max_rank=%d: %r' % (cap, r.ranks)))
+                        for thr in (1e-12, 0, 1e-6):
+                            r = sle.mals(A, x0, b, repeats=2, solver=micro, threshold=thr, max_rank=cap)
+                            if metadata_problem(r) or max(r.ranks) > cap:
+                                out.append(('%s:maxrank' % tag, 'MALS exceeded max_rank=%d with threshold=%g: %r' % (cap, thr, r.ranks)))
+                                break
             except Exception as e:
                 out.append(('%s:exception:%s' % (tag, type(e).__name__), '%r (cfg dims %r rx %r r0 %r guess %s)' % (
                     e, cfg['dims'], cfg['rx'], cfg['r0'], cfg['guess'])))
